@@ -28,17 +28,20 @@ DefPrec == [u \in Bufs |-> "f32"]
 DefMem == [u \in Bufs |-> "DRAM"]
 DefWin == [u \in Winable |-> FALSE]
 
-VARIABLES prec, mem, win
-vars == <<prec, mem, win>>
+VARIABLES prec, mem, win,
+          alias   \* TRUE: callee reads y through a window statement  w = y[0:8]  (t[i] = x[i] + w[i]; leaf(w, ..)):
+                  \* annotations of y must reach the accesses made through its alias
+vars == <<prec, mem, win, alias>>
 
 Diff(f, g) == Cardinality({u \in DOMAIN f : f[u] # g[u]})
 Init ==
-  \/ prec \in [Bufs -> Precs] /\ mem = DefMem /\ win = DefWin
-  \/ prec = DefPrec /\ mem \in [Bufs -> Mems] /\ win = DefWin
-  \/ prec = DefPrec /\ mem = DefMem /\ win \in [Winable -> BOOLEAN]
-  \/ /\ prec \in {p \in [Bufs -> Precs] : Diff(p, DefPrec) <= 1}
-     /\ mem \in {m \in [Bufs -> Mems] : Diff(m, DefMem) <= 1}
-     /\ win \in [Winable -> BOOLEAN]
+  /\ alias \in BOOLEAN
+  /\ \/ prec \in [Bufs -> Precs] /\ mem = DefMem /\ win = DefWin
+     \/ prec = DefPrec /\ mem \in [Bufs -> Mems] /\ win = DefWin
+     \/ prec = DefPrec /\ mem = DefMem /\ win \in [Winable -> BOOLEAN]
+     \/ /\ prec \in {p \in [Bufs -> Precs] : Diff(p, DefPrec) <= 1}
+        /\ mem \in {m \in [Bufs -> Mems] : Diff(m, DefMem) <= 1}
+        /\ win \in [Winable -> BOOLEAN]
 Next == UNCHANGED vars
 Spec == Init /\ [][Next]_vars
 
@@ -55,5 +58,5 @@ Consistent == P1 /\ P2 /\ M1 /\ M2 /\ W1
 Broken == {r \in {"P1", "P2", "M1", "M2", "W1"} :
              CASE r = "P1" -> ~P1 [] r = "P2" -> ~P2 [] r = "M1" -> ~M1 [] r = "M2" -> ~M2 [] r = "W1" -> ~W1}
 
-Emit == PrintT(ToJson([prec |-> prec, mem |-> mem, win |-> win, ok |-> Consistent, broken |-> Broken]))
+Emit == PrintT(ToJson([prec |-> prec, mem |-> mem, win |-> win, alias |-> alias, ok |-> Consistent, broken |-> Broken]))
 =============================================================================
